@@ -130,13 +130,11 @@ func cmdInline(args []string) *Result {
 		inlineCheck(res, &r)
 		return res
 	}
-	for _, path := range args {
-		forEachTLCRecord(path, func(raw []byte) {
-			var r inlineRec
-			mustUnmarshal(raw, &r)
-			inlineCheck(res, &r)
-		})
-	}
+	res = parallelTLCRecords(args, func(res *Result, raw []byte) {
+		var r inlineRec
+		mustUnmarshal(raw, &r)
+		inlineCheck(res, &r)
+	})
 	res.Traces = res.Evaluations
 	return res
 }
